@@ -9,6 +9,7 @@ import pandas as pd
 
 from vtlengine.AST.Grammar.tokens import GT, GTE, LT, LTE
 from vtlengine.Exceptions import RunTimeError
+from vtlengine import _verif
 
 PERIOD_IND_MAPPING = {"A": 6, "S": 5, "Q": 4, "M": 3, "W": 2, "D": 1}
 
@@ -22,10 +23,12 @@ class TimePeriodConfig:
 
     @classmethod
     def set_representation(cls, representation: str) -> None:
+        _verif.yield_point("tpconfig:set")
         cls._representation = representation
 
     @classmethod
     def get_representation(cls) -> str:
+        _verif.yield_point("tpconfig:get")
         return cls._representation
 
 
